@@ -20,7 +20,11 @@ TH = COQ / "theories"
 GEN = TH / "Gen"
 OCAML = VERIF / "ocaml"
 OGEN = OCAML / "gen"
-TRANSLATORS = ["lexer_t", "emitter_t", "constraints_t", "gbnf_t", "tools_t", "modstate_t", "misc_t"]
+
+
+def translator_names():
+    return sorted(p.stem for p in (VERIF / "harness" / "translate").glob("*_t.py"))
+
 
 FORBIDDEN = re.compile(
     r"\b(Admitted|admit|Axiom|Axioms|Parameter|Parameters|Conjecture|Conjectures|Admit Obligations)\b"
@@ -95,7 +99,7 @@ def translate_all():
     GEN.mkdir(parents=True, exist_ok=True)
     sys.path.insert(0, str(VERIF / "harness"))
     report = {}
-    for name in TRANSLATORS:
+    for name in translator_names():
         modpath = VERIF / "harness" / "translate" / f"{name}.py"
         if not modpath.exists():
             continue
